@@ -121,10 +121,26 @@ def partition_rule(ctx, P, rs, RULE):
         rows_atom = "tensors" if run.entry == "backward" else "features"
         cand = [r for r in _pipe.main_paths(run) if not _pipe.blocking(r) and any(e["axis"] == 0 and "_differentiate" in e["function"] for e in _pipe.evs(r, "unpack"))]
         if not cand and _pipe.main_paths(run):
-            ctx.undecided(RULE, run.label, "no path slices the rows of the cotangents", "")
+            # no slicing at all: fine when every path differentiates the whole stack of cotangents in a single sweep (one block)
+            single = True
+            for r in _pipe.main_paths(run):
+                if _pipe.blocking(r):
+                    single = False
+                    break
+                sw = {(e["loc"], tuple(e.get("loops") or ())) for e in _pipe.evs(r, "autograd")
+                      if isinstance(e.get("outputs"), dict) and rows_atom in (e["outputs"].get("atoms") or []) and e.get("loop_depth", 0) == 0}
+                looped = [e for e in _pipe.evs(r, "autograd") if isinstance(e.get("outputs"), dict) and rows_atom in (e["outputs"].get("atoms") or []) and e.get("loop_depth", 0) > 0]
+                if len(sw) != 1 or looped:
+                    single = False
+            if single and not run.variant["chunk"]:
+                n_part += 1
+                ctx.ok(RULE, f"{run.label}: row blocks", "no chunk size: the cotangents are differentiated whole, in one sweep", "", nontrivial=False)
+            else:
+                ctx.undecided(RULE, run.label, "no path slices the rows of the cotangents", "")
         for res in cand[:1]:
             sl = [e for e in _pipe.evs(res, "unpack") if e["axis"] == 0 and e["layout_how"] in (None, "stack", "vstack") and "_differentiate" in e["function"]]
-            rng = [e for e in _pipe.evs(res, "range") if "_differentiate" in e["function"]]
+            slice_syms = {sy for e in sl for pl in (e.get("lo_poly"), e.get("hi_poly")) if pl is not None for sy in pl.symbols()}
+            rng = [e for e in _pipe.evs(res, "range") if "_differentiate" in e["function"] or e["var"] in slice_syms]  # incl. ranges of helper generators
             if not sl:
                 ctx.undecided(RULE, run.label, "no row slicing of the cotangents found", "")
                 continue
@@ -232,7 +248,9 @@ def partition_rule(ctx, P, rs, RULE):
                         break
                 if bad:
                     break
-            if bad:
+            if bad and bad[2].startswith("cannot evaluate"):
+                ctx.undecided(RULE, key, f"for m={bad[0]} rows and parallel_chunk_size={bad[1]}: {bad[2]}", fi_loc)
+            elif bad:
                 ctx.violated(RULE, key, f"for m={bad[0]} rows and parallel_chunk_size={bad[1]}: {bad[2]}", fi_loc,
                              derivation={"m": bad[0], "k": bad[1], "loop": [repr(x["lo_poly"]) + ":" + repr(x["hi_poly"]) for x in loop_sl], "last": [repr(x["lo_poly"]) for x in last_sl]})
             else:
